@@ -275,7 +275,16 @@ def execute(case, scratch):
                     return viol("cli_subset_failed", {"rc": cres["rc"], "out": cres["out"][-400:]})
                 rows = {k: v for k, v in parse_summary(cres["out"]).items() if v}
                 want = project(h0["setmap"], sub)
-                if rows != want:
+                # the table parser is only trusted if it reads the unrestricted run's table back exactly
+                # (a change of table layout must not turn into an alarm about -p)
+                full = runners.run_fresh("cli_run", {"top": top, "cwd": root, "module": "codebasin",
+                                                     "argv": ["-R", "summary", os.path.join(top, W.analysis_path(world))]})
+                stats["cli_runs"] += 1
+                allp = [p["name"] for p in world["platforms"]]
+                parser_ok = {k: v for k, v in parse_summary(full["out"]).items() if v} == project(h0["setmap"], allp)
+                if not parser_ok:
+                    stats["probes"]["summary_table_unparseable"] = 1
+                if parser_ok and rows != want:
                     return viol("cli_subset_summary_differs_from_projection",
                                 {"subset": sub, "printed": sorted([sorted(k), v] for k, v in rows.items()),
                                  "projection": sorted([sorted(k), v] for k, v in want.items())})
